@@ -315,7 +315,7 @@ def run_harness(h, tier, kf_features):
     elif r["verdict"] is None:
         out["status"], out["reason"] = "inconclusive", ("out of memory" if r["oom"] else f"no verdict (rc={rc}); see log")
     elif r["verdict"] == "SUCCESSFUL":
-        if r["covers_total"] and r["covers_sat"] != r["covers_total"] and not h.get("allow_unsat_covers"):
+        if r["covers_total"] and r["covers_sat"] < h.get("min_covers", r["covers_total"]) and not h.get("allow_unsat_covers"):
             out["status"], out["reason"] = "vacuous", f"only {r['covers_sat']} of {r['covers_total']} reachability witnesses satisfied"
         elif expect_fail:
             out["status"], out["reason"] = "stale-finding", "witness harness for a known finding no longer fails"
@@ -327,7 +327,7 @@ def run_harness(h, tier, kf_features):
             # only allocator-model checks failed: the harness's own obligations all hold
             out["status"] = "pass"
             out["ignored_alloc_model_checks"] = r["ignored_alloc_model"]
-            if r["covers_total"] and r["covers_sat"] != r["covers_total"] and not h.get("allow_unsat_covers"):
+            if r["covers_total"] and r["covers_sat"] < h.get("min_covers", r["covers_total"]) and not h.get("allow_unsat_covers"):
                 out["status"], out["reason"] = "vacuous", f"only {r['covers_sat']} of {r['covers_total']} reachability witnesses satisfied"
             return out
         if r["oom"] and not prop_fail:
@@ -345,7 +345,7 @@ def run_harness(h, tier, kf_features):
 PLAYBACK_RE = re.compile(r"```\n(.*?)```", re.S)
 
 
-def replay(h, prop, kf_features):
+def replay(h, prop, kf_features, failures=None):
     """Kani concrete playback: extract the counterexample as a unit test, run it natively
     (dev profile) against the real crates + mock. Returns (reproduced, replay_path)."""
     cdir = prepare_crate(h["crate"])
@@ -355,24 +355,43 @@ def replay(h, prop, kf_features):
                                      h.get("timeout", 1200) * 2, 40)
     text = open(log).read()
     blocks = re.findall(r"Concrete playback unit test for `[^`]*`:\n```\n(.*?)```", text, re.S)
-    # one block per failed check and per satisfied cover; we want a failed (non-cover) check
-    blocks = [b for b in blocks if "Check for `cover`" not in b]
+    # one block per failed check and per satisfied cover.  Kani names a test after the hash of
+    # its concrete values and prints each test once: when the counterexample of the failed
+    # assertion has the same values as a cover witness only the cover-labelled block exists.
+    # So: failed-check blocks first, then cover blocks; a block counts only if running it
+    # natively makes the harness's own assertion panic.
+    blocks = [b for b in blocks if "Check for `cover`" not in b] + [b for b in blocks if "Check for `cover`" in b]
+    if not any("Check for `cover`" not in b for b in blocks) and failures:
+        # second playback run restricted to the failed check itself (CBMC --property): its
+        # counterexample is then the only trace there is
+        h2 = dict(h, cbmc_args=list(h.get("cbmc_args", [])) + ["--property", failures[0]["check"]])
+        log2 = os.path.join(LOGS, h["name"] + ".playback2.log")
+        run_with_caps(kani_cmd(h2, kf_features, playback="print"), cdir, log2, h.get("timeout", 1200) * 2, 40)
+        more = re.findall(r"Concrete playback unit test for `[^`]*`:\n```\n(.*?)```", open(log2).read(), re.S)
+        blocks = more + blocks
     if not blocks:
         return None, None
-    test_src = blocks[0]
-    tm = re.search(r"fn (kani_concrete_playback_\w+)", test_src)
-    test_name = tm.group(1)
-    digest = hashlib.sha1(test_src.encode()).hexdigest()[:10]
-    rdir = os.path.join(VERIF, "replays", prop)
-    os.makedirs(rdir, exist_ok=True)
-    rpath = os.path.join(rdir, f"{h['name']}_{digest}.rs")
-    with open(rpath, "w") as f:
-        f.write(f"// counterexample for harness `{h['name']}` (property {prop}) found by Kani/CBMC\n")
-        f.write(f"// replay: ./check {prop} --replay {os.path.relpath(rpath, VERIF)}\n")
-        f.write(f"// harness-module: {h['module']}\n")
-        f.write(test_src)
-    ok = run_replay_file(h, rpath, kf_features)
-    return ok, rpath
+    result = (None, None)
+    for test_src in blocks[:4]:
+        tm = re.search(r"fn (kani_concrete_playback_\w+)", test_src)
+        if not tm:
+            continue
+        digest = hashlib.sha1(test_src.encode()).hexdigest()[:10]
+        rdir = os.path.join(VERIF, "replays", prop)
+        os.makedirs(rdir, exist_ok=True)
+        rpath = os.path.join(rdir, f"{h['name']}_{digest}.rs")
+        with open(rpath, "w") as f:
+            f.write(f"// counterexample for harness `{h['name']}` (property {prop}) found by Kani/CBMC\n")
+            f.write(f"// replay: ./check {prop} --replay {os.path.relpath(rpath, VERIF)}\n")
+            f.write(f"// harness-module: {h['module']}\n")
+            f.write(test_src)
+        ok = run_replay_file(h, rpath, kf_features)
+        if ok:
+            return True, rpath
+        os.remove(rpath)
+        if ok is False and result[0] is None:
+            result = (False, None)
+    return result
 
 
 def run_replay_file(h, rpath, kf_features):
@@ -424,7 +443,7 @@ def run_replay_file(h, rpath, kf_features):
 def main():
     ap = argparse.ArgumentParser()
     ap.add_argument("prop")
-    ap.add_argument("--tier", default=os.environ.get("VERIF_TIER", "quick"), choices=["quick", "thorough"])
+    ap.add_argument("--tier", default=os.environ.get("VERIF_TIER", "quick"), choices=["quick", "thorough", "lab"])
     ap.add_argument("--jobs", type=int, default=int(os.environ.get("VERIF_JOBS", "6")))
     ap.add_argument("--only", default=None)
     ap.add_argument("--no-evidence", action="store_true")
@@ -436,7 +455,7 @@ def main():
     os.makedirs(LOGS, exist_ok=True)
 
     findings, fixed = load_known_findings()
-    harnesses = [h for h in registry.HARNESSES if h["prop"] == prop]
+    harnesses = [h for h in registry.HARNESSES if h["prop"] == prop or prop in h.get("also", [])]
     if not harnesses:
         print(f"no harness registered for {prop}")
         return 2
@@ -449,7 +468,7 @@ def main():
         print("replay reproduces the violation" if ok else "replay does NOT reproduce")
         return 1 if ok else 0
 
-    tiers = ["quick"] if args.tier == "quick" else ["quick", "thorough"]
+    tiers = {"quick": ["quick"], "thorough": ["quick", "thorough"], "lab": ["quick", "thorough", "lab"]}[args.tier]
     selected = [h for h in harnesses if h.get("tier", "quick") in tiers]
     if args.only:
         selected = [h for h in selected if re.search(args.only, h["name"])]
@@ -496,7 +515,7 @@ def main():
                 # expected: the listed finding is still present
                 r["status"] = "known-finding-confirmed"
                 continue
-            ok, rpath = replay(h, prop, kf_features_all[h["name"]])
+            ok, rpath = replay(h, prop, kf_features_all[h["name"]], r.get("failures"))
             r["replay"] = rpath
             if ok:
                 r["status"] = "violation"
